@@ -8,13 +8,14 @@ import PyndlDriver.OpsAttrs
 import PyndlDriver.OpsBand
 import PyndlDriver.OpsCorr
 import PyndlDriver.OpsFilter
+import PyndlDriver.OpsEffects
 
 open Lean
 
 namespace PyndlDriver
 
 def plugins : List (String → Json → Option (M Json)) :=
-  [handleCreate?, handleText?, handleCorpus?, handleAct?, handleWH?, handleAttrs?, handleBand?, handleCorr?, handleFilter?]
+  [handleCreate?, handleText?, handleCorpus?, handleAct?, handleWH?, handleAttrs?, handleBand?, handleCorr?, handleFilter?, handleEffects?]
 
 def handlePlugin? (op : String) (j : Json) : Option (M Json) :=
   plugins.findSome? (fun h => h op j)
